@@ -4,13 +4,15 @@ sys.path.insert(0, os.path.dirname(os.path.abspath(__file__)))
 import tools_seeded as T
 
 pid = sys.argv[1]
-allchecks = len(sys.argv) > 2 and sys.argv[2] == "all"
-src = "/tmp/seed-out/%s" % pid
+allchecks = "all" in sys.argv[2:]
+rnd = 2 if "round2" in sys.argv[2:] else 1
+src = ("/tmp/seed-out2/%s" if rnd == 2 else "/tmp/seed-out/%s") % pid
+LETTER = {(1, ""): "a", (1, "2"): "b", (2, ""): "c", (2, "2"): "d"}
 for suffix in ("", "2"):
     patch, demo, notes = "patch%s.diff" % suffix, "demo%s.py" % suffix, "notes%s.json" % suffix
     if not os.path.exists(os.path.join(src, patch)) or not os.path.exists(os.path.join(src, demo)):
         continue
-    name = "%s_%s" % (pid, "a" if suffix == "" else "b")
+    name = "%s_%s" % (pid, LETTER[(rnd, suffix)])
     try:
         v = T.verify(src, pid, patch, demo)
     except Exception as e:
